@@ -516,9 +516,12 @@ func TestVerif_C18(t *testing.T) {
 	ev.Bound("preemption_bound", bound)
 	var n, trans int64
 	scs := c18Scenarios(BuffSizeAlign, false)
+	// a capacity that is not a power of two (ring arithmetic must not rely on masks)
+	scs = append(scs, c18Scenarios(3*BuffSizeAlign, false)...)
 	if ev.Thorough() {
 		scs = append(scs, c18Scenarios(2*BuffSizeAlign, false)[:5]...)
 		scs = append(scs, c18Scenarios(FileSizeAlign, true)[:3]...)
+		scs = append(scs, c18Scenarios(3*FileSizeAlign, true)[:3]...)
 	}
 	var idx int64
 	for _, sc := range scs {
@@ -571,7 +574,7 @@ func c18Seq() {
 	for _, cfg := range []struct {
 		capn int
 		file bool
-	}{{BuffSizeAlign, false}, {FileSizeAlign, true}} {
+	}{{BuffSizeAlign, false}, {3 * BuffSizeAlign, false}, {FileSizeAlign, true}, {3 * FileSizeAlign, true}} {
 		if cfg.file && !ev.Thorough() {
 			continue
 		}
